@@ -706,7 +706,7 @@ type classification struct {
 func (ck0 *checker) classify(t *tmpl, first outcome) classification {
 	w := map[string]any{
 		"legacy_template": first.source, "migrated": first.migrated, "clause": first.clause, "detail": first.detail,
-		"expected": first.expected, "observed": first.observed, "operands": ck0.b.describe(), "options": optsString(ck0.opts),
+		"expected": first.expected, "observed": first.observed, "operands": ck0.b.describeFor(first.source), "options": optsString(ck0.opts),
 	}
 	if first.panicSig != "" {
 		return classification{first.panicSig, first.detail, w}
@@ -771,6 +771,11 @@ func (ck0 *checker) classify(t *tmpl, first outcome) classification {
 			return true
 		}
 		return passes1(e)
+	}
+
+	// 3. spelling experiments: number literals, negative indexes, drawn names
+	if cl, ok := ck.classifySpelling(root, so, passes, w); ok {
+		return cl
 	}
 
 	// 3a. string literal experiments
@@ -1063,6 +1068,7 @@ func (p *c17) Run(c fw.Case) fw.Result {
 	for j := 0; j < per; j++ {
 		g := &genr{r: r.Fork(fmt.Sprint("t", j))}
 		b := genBindings(g.r)
+		g.b = b
 		ck := newChecker(&res, b, genOpts(g.r))
 		var t *tmpl
 		tag := "random"
